@@ -50,7 +50,14 @@ PROGRAMS["two-files-later-category-only-first"] = {"test_a.py": H + "def test_a(
                                                     "test_b.py": H + "def test_b():\n    assert 5 == snapshot()\n"}
 PROGRAMS["defaults-in-pyproject"] = {"test_something.py": PROGRAMS["four-sites"]["test_something.py"],
                                      "pyproject.toml": '[tool.inline-snapshot]\ndefault-flags = ["create", "fix", "trim"]\n'}
-QUICK = ["defaults-in-pyproject", "two-files-later-category-only-first", "replace-all-members", "four-sites", "list-mixed", "sub-mixed", "hasrepr", "failing", "two-files", "in-mixed", "strings", "dataclass", "clean-file", "nested-snapshot", "never-compared"]
+# a distribution mode configured in the project without any worker (`--dist` alone distributes nothing): xdist is importable,
+# not running; the helpers and the real session must still agree
+PROGRAMS["dist-option-without-workers"] = {"test_something.py": PROGRAMS["four-sites"]["test_something.py"],
+                                           "pytest.ini": "[pytest]\naddopts = --dist=loadfile\n"}
+PROGRAMS["dist-option-n0"] = {"test_something.py": PROGRAMS["four-sites"]["test_something.py"],
+                              "pytest.ini": "[pytest]\naddopts = --dist=loadscope -n 0\n"}
+NEEDS_XDIST = {"dist-option-without-workers", "dist-option-n0"}
+QUICK = ["dist-option-without-workers", "dist-option-n0", "defaults-in-pyproject", "two-files-later-category-only-first", "replace-all-members", "four-sites", "list-mixed", "sub-mixed", "hasrepr", "failing", "two-files", "in-mixed", "strings", "dataclass", "clean-file", "nested-snapshot", "never-compared"]
 
 
 GEN_BATCH = 12
@@ -191,7 +198,8 @@ def run_case(case):
     # the empty subset is passed explicitly and without `report`: it must not fall back to configured defaults
     flag = "--inline-snapshot=" + ",".join(F + (["report"] if F or "pyproject.toml" not in files else []))
     try:
-        Example(dict(files)).run_pytest([flag] + plugin.NOPLUG + ["-p", "no:xdist", "-p", "no:cacheprovider"], changed_files=cf2, report=rep2, returncode=ret2)
+        noxd = [] if case["prog"] in NEEDS_XDIST else ["-p", "no:xdist"]
+        Example(dict(files)).run_pytest([flag] + plugin.NOPLUG + noxd + ["-p", "no:cacheprovider"], changed_files=cf2, report=rep2, returncode=ret2)
     except BaseException as e:  # noqa
         V("run_pytest-raised", "%s: %s" % (type(e).__name__, str(e)[:400]))
         return viol
@@ -200,7 +208,7 @@ def run_case(case):
     # 3. real session
     d = plugin.mk_project(dict({"pyproject.toml": ""}, **files))
     try:
-        r = plugin.session(d, [flag])
+        r = plugin.session(d, [flag], xdist=case["prog"] in NEEDS_XDIST)
         after = plugin.listing(d, text=True)
     finally:
         plugin.cleanup()
